@@ -587,3 +587,41 @@ def im12(ctx: Ctx):
                "memoised on a key that is not compared exactly (" + "; ".join(problems) + "): URL equality identifies values whose "
                "string form differs, unannotated/other types may compare equal while behaving differently - the result then "
                "depends on which equal key was seen first", where(fi, fi.node), sample="str/int/bool/None parameters only")
+
+
+def im13(ctx: Ctx):
+    """IM13: the cache dict of a URL is written in place only by that URL's own lazy accessors (`self._cache[...] = ...` in a
+    method) or while the object is being created in the same function. A function that writes into the cache of any other URL
+    - the result of a memoised constructor, an argument, another URL it read - plants entries in an object other callers and
+    threads share, computed from something else than that object's own fields."""
+    model = ctx.model
+    rule = "IM13"
+    ctx.rule(rule, floor=2, what="in-place cache writes target self (own lazy fill) or an object created in the same function")
+    WRITERS = {"setdefault", "update", "pop", "popitem", "clear", "__setitem__", "__delitem__", "setitem"}
+    for fi in pkg_funcs(model):
+        if fi.module != "_url":
+            continue
+        r = analyze(model, fi)
+        sites = {}
+
+        def owner_of(t):
+            while t[0] == "mut":
+                t = t[1]
+            return t[1] if t[0] == "attr" and t[2] == "_cache" else None
+        for e in r.events:
+            if e.kind == "mutate" and e.method in WRITERS:
+                o = owner_of(e.recv)
+            elif e.kind == "store_sub":
+                o = owner_of(e.base)
+            else:
+                continue
+            if o is None:
+                continue
+            ok = (o == ("param", "self") and fi.cls == "URL") or _fresh(model, o) or fi.qual == "_url.URL.__setstate__"
+            sites.setdefault(id(e.node), [e.node, show(o)[:50], []])[2].append(ok)
+        for node, who, oks in sites.values():
+            ctx.instance(rule)
+            ctx.ob(rule, fi.qual, f"write into the cache of {who}", all(oks),
+                   f"the cache of {who} - not self, not an object created here - is written in place: the object may be shared "
+                   "(memoised constructors return one object to every caller) and the entry was not computed from its own fields",
+                   where(fi, node), sample="self (lazy fill) or a fresh object")
